@@ -84,10 +84,16 @@ def call(eng, st, canon, node, guard):
     if canon == "float":
         if isinstance(args[0], PyObj) and args[0].kind == "str" and args[0].val.lower() == "nan":
             return sx.FL.nan
+        if isinstance(args[0], PyObj) and args[0].kind == "str" and args[0].val.lower() in ("inf", "+inf", "infinity"):
+            USED.add("float('inf') is only compared (modelled as a real above every finite float; arithmetic on it is refused)")
+            return sx.PY_INF
         if sx.is_fl(args[0]):
             return args[0]
         a = to_z3(args[0])
         return z3.ToReal(a) if z3.is_int(a) else a
+    if canon == "str" and len(args) == 1 and not isinstance(args[0], (Ref, tuple)):
+        USED.add("str(x): an opaque string")
+        return sx.fresh("str", sx.STR)
     if canon in ("isnan", "math.isnan"):
         a = args[0]
         if sx.is_fl(a):
@@ -225,6 +231,21 @@ def method(eng, st, recv, meth, node, guard):
             ho = ho.replace(elem=kind, arr=sx.fresh(recv.base, sx.arr_sort(kind, 1)))
         n = ho.shape[0]
         st.heap[recv.base] = ho.replace(arr=z3.Store(ho.arr, n, sx.coerce(v, ho.elem)), shape=(n + 1,))
+        return PyObj("none")
+    if meth == "extend" and isinstance(recv, Ref) and st.heap[recv.base].kind == "list" and not recv.prefix \
+            and len(args) == 1 and isinstance(args[0], PyObj) and args[0].kind == "opaque":
+        ho = st.heap[recv.base]
+        if ho.elem is None and ho.arr is None:      # items not modelled: the list grows by an unknown amount
+            USED.add("list.extend by an unmodelled iterable: the length does not decrease")
+            n_ = sx.fresh(recv.base + ".len'ext", I)
+            st.pc.append(n_ >= ho.shape[0])
+            st.heap[recv.base] = ho.replace(shape=(n_,))
+            return PyObj("none")
+        raise Unsupported("extend of a modelled list by an unmodelled iterable")
+    if meth == "clear" and isinstance(recv, Ref) and st.heap[recv.base].kind == "list" and not recv.prefix and not args:
+        USED.add("list.clear")
+        ho = st.heap[recv.base]
+        st.heap[recv.base] = ho.replace(shape=(z3.IntVal(0),))
         return PyObj("none")
     if meth == "add" and isinstance(recv, Ref) and eng.is_set(st, recv):
         USED.add("set.add")
